@@ -16,3 +16,17 @@ fi
 if ! ls "${MIRI_SYSROOT:-$HOME/.cache/miri}"/lib/rustlib/x86_64-unknown-linux-gnu >/dev/null 2>&1; then
   CARGO_NET_OFFLINE=true cargo +nightly miri setup >/dev/null 2>&1 || echo "setup-extra: native miri sysroot failed (built lazily on first use)"
 fi
+
+# --- componentize checks (C09/C12/C13/C31): warm the working-tree CLI build and C09's scratch projects (wit-bindgen
+# guest crate for the custom wasm32 target with -Zbuild-std=core,alloc, and for the host). Checks do the same builds
+# incrementally on every run; this only moves the one-time cost (~2 min) out of the first quick run.
+( cd "$(dirname "$0")/.." && python3 - <<'PY' >/dev/null 2>&1 || echo "setup-extra: C09/C12 warm-up failed (built lazily on first use)"
+import sys
+sys.path.insert(0, "lib")
+import cli, compz
+from checks import C09
+compz.componentize_bin()
+cli.build_cli()
+C09.prepare_base()
+PY
+)
